@@ -5,10 +5,10 @@ From Gokrb5.model Require Import ClientPairs.
 From Gokrb5.proofs Require Import ClientPairsProofs.
 
 (* For every source of session keys, every history of requests and destroys from the empty client, whether the KDC
-   serves or refuses renewals: every (ticket, key) pair handed back is in the KDC's issue log for the SPN asked for,
+   serves or refuses renewals, whatever the difference between its clock and the client's: every (ticket, key) pair handed back is in the KDC's issue log for the SPN asked for,
    and renewTicket never fails to find the renewed entry. *)
-Theorem C10_pairs_issued_together : forall keysrc life renew serves ops o a s',
-  In (o, Some a, s') (pstates keysrc (mkPS [] (mkPK 0 life renew serves [])) ops) ->
+Theorem C10_pairs_issued_together : forall keysrc life renew serves ahead ops o a s',
+  In (o, Some a, s') (pstates keysrc (mkPS [] (mkPK 0 life renew serves ahead [])) ops) ->
   exists spn now, o = PGet spn now /\ a <> PLost /\
     forall t k, pair_of a = Some (t, k) -> In (t, spn, k) (pk_log (ps_kdc s')).
 Proof. exact pairs_issued_together_fresh. Qed.
